@@ -22,7 +22,7 @@ class SpecMixin(object):
         'prefix_of', 'suffix_of', 'contains', 'index_of', 'str_to_int', 'iff', 'distinct_keys',
         'null', 'isnull', 'in_re', 'last', 'card', 'real', 'tag_eq', 'obj_of', 'same_ghost',
         'str_of_int', 'length', 'ref_id', 'distinct', 'sig_mode', 'path_idx', 'slen', 'path_inv',
-        'is_bytes', 'as_bytes', 'init', 'repev', 'rp_cid', 'rp_mid', 'rp_status',
+        'is_bytes', 'as_bytes', 'init', 'repev', 'rp_cid', 'rp_mid', 'rp_status', 'as_ref',
     ])
 
     # ------------------------------------------------------------------ entry points
@@ -260,6 +260,12 @@ class SpecMixin(object):
     def spec_ref_id(self, e, st):
         (a,) = self._args(e, st)
         return SV(INT, Val.vx(a.z)) if a.ty == VAL else SV(INT, a.z)
+
+    def spec_as_ref(self, e, st):
+        """as_ref('Cls', n): the object whose identity (ref_id) is the integer n"""
+        cls = e.args[0].value
+        n = self.ev1(e.args[1], st)
+        return SV(TRef(cls), n.z)
 
     def spec_path_idx(self, e, st):
         a, i = self._args(e, st)
